@@ -82,8 +82,10 @@ func KCode(err error) int {
 	return hx.ErrOther
 }
 
-func (k *KernelSys) Mkdir(p string, perm uint32) int    { return KCode(os.Mkdir(k.m(p), GoMode(perm))) }
-func (k *KernelSys) MkdirAll(p string, perm uint32) int { return KCode(os.MkdirAll(k.m(p), GoMode(perm))) }
+func (k *KernelSys) Mkdir(p string, perm uint32) int { return KCode(os.Mkdir(k.m(p), GoMode(perm))) }
+func (k *KernelSys) MkdirAll(p string, perm uint32) int {
+	return KCode(os.MkdirAll(k.m(p), GoMode(perm)))
+}
 func (k *KernelSys) OpenWrite(p string, flag int, perm uint32, data []byte) (int, int) {
 	f, err := os.OpenFile(k.m(p), flag, GoMode(perm))
 	if err != nil {
